@@ -192,6 +192,12 @@ func verifyChain(certs []*x509.Certificate, trc *TRC, now time.Time) error {
 	if trc == nil || trc.IsZero() {
 		return serrors.New("TRC required for chain verification")
 	}
+	// The AS certificate must be issued by the CA certificate of the chain. Without this
+	// check, an AS certificate signed directly by a root of the TRC verifies below,
+	// regardless of the CA certificate it is paired with.
+	if err := certs[0].CheckSignatureFrom(certs[1]); err != nil {
+		return serrors.Wrap("AS certificate not issued by CA certificate of the chain", err)
+	}
 	intPool := x509.NewCertPool()
 	intPool.AddCert(certs[1])
 	rootPool, err := trc.RootPool()
